@@ -41,3 +41,15 @@ Qed.
 (* numpy.linalg.det leaves the binary64 range although the determinant is an ordinary positive rational *)
 Theorem det_range_refuted : exists dcov : Q, 0 < dcov /\ det_underflow dcov = true /\ det_overflow (/ dcov) = true.
 Proof. exists (1 # (2 ^ 1600)). split; [reflexivity|]. split; vm_compute; reflexivity. Qed.
+
+(* ---------- GMRF after fixes/C20_gmrf_rank_rule.diff: the coded rank is the true rank for every order and boundary condition ---------- *)
+Theorem gmrf_rank_v_fixed order b twod dim : (order <= 2)%nat -> b <> BBackward -> b <> BNone ->
+  gmrf_rank_v true order b twod dim = gmrf_true_rank order b twod dim.
+Proof.
+  intros Ho H1 H2. unfold gmrf_rank_v.
+  destruct order as [|[|[|o]]]; try lia; destruct b; try congruence; cbn [gmrf_nullity gmrf_true_rank];
+    rewrite ?Nat.sub_0_r, ?Nat.sub_1_r; try reflexivity; destruct twod; reflexivity.
+Qed.
+
+Theorem gmrf_rank_v_unfixed order b twod dim : gmrf_rank_v false order b twod dim = gmrf_rank_code b dim.
+Proof. reflexivity. Qed.
